@@ -11,7 +11,7 @@ LOG=$DST/confirm.log; : > $LOG
 cp $OUT/demo$I.rs tests/seeded_demo.rs
 echo "== demo on unmodified tree" >> $LOG
 cargo test --offline $FEATURES --test seeded_demo >> $LOG 2>&1; echo "demo_clean_exit=$?" >> $LOG
-git apply $OUT/patch$I.diff >> $LOG 2>&1 || { echo "patch does not apply" >> $LOG; }
+git apply $OUT/patch$I.diff >> $LOG 2>&1 || git apply -3 $OUT/patch$I.diff >> $LOG 2>&1 || { echo "patch does not apply" >> $LOG; }
 echo "== build + lib tests with change" >> $LOG
 cargo test --offline $FEATURES --lib >> $LOG 2>&1; echo "lib_tests_exit=$?" >> $LOG
 echo "== demo with change" >> $LOG
